@@ -20,6 +20,13 @@ EXPLANATION = (
 NARROWING = ("head", "tail", "iloc", "loc", "sample", "values", "drop", "dropna", "describe", "shape")
 
 
+def _parent_of(root, node):
+    for p_ in ast.walk(root):
+        for c_ in ast.iter_child_nodes(p_):
+            if c_ is node:
+                return p_
+    return None
+
 def run(program, res, tier):
     res.rule("C25-S1", "cache key depends on dialect, SQL text and every table's name, shape, columns and whole-frame hash")
     res.rule("C25-S2", "returned and stored frames are copies")
@@ -110,6 +117,33 @@ def run(program, res, tier):
             else:
                 res.fail_at("C25-S1", hd, f"hash-lacks:{want}",
                             f"a return of hash_data_frame (`{unparse(rt.stmt.value)[:50]}`) does not depend on {want}: {why}", rt.stmt)
+        # the column *names* must be in the key as values, not merely drive a loop (iterating d.columns to collect per-column types does
+        # not put the names into the key)
+        def _mentions_names(e, depth=0) -> bool:
+            for sub in ast.walk(e):
+                if isinstance(sub, ast.Attribute) and sub.attr == "columns" and unparse(sub.value) == p:
+                    # not as the iteration source of a comprehension whose element ignores the loop variable's name
+                    holder = [c for c in ast.walk(e) if isinstance(c, (ast.ListComp, ast.GeneratorExp, ast.SetComp, ast.DictComp))
+                              and any(sub in list(ast.walk(g_.iter)) for g_ in c.generators)]
+                    if not holder:
+                        return True
+                    for c in holder:
+                        tgt = {t.id for g_ in c.generators for t in ast.walk(g_.target) if isinstance(t, ast.Name)}
+                        elt = c.elt if not isinstance(c, ast.DictComp) else ast.Tuple(elts=[c.key, c.value], ctx=ast.Load())
+                        # the element is the name itself (or contains it bare), e.g. [c for c in d.columns] / list(d.columns)
+                        if any(isinstance(x, ast.Name) and x.id in tgt and not isinstance(_parent_of(elt, x), (ast.Subscript, ast.Call, ast.Attribute)) for x in ast.walk(elt)):
+                            return True
+            if depth < 2:
+                for nm in [x.id for x in ast.walk(e) if isinstance(x, ast.Name)]:
+                    for st in ast.walk(hd.node):
+                        if isinstance(st, ast.Assign) and len(st.targets) == 1 and unparse(st.targets[0]) == nm and _mentions_names(st.value, depth + 1):
+                            return True
+            return False
+
+        if not _mentions_names(rt.stmt.value):
+            res.fail_at("C25-S1", hd, "hash-lacks-column-names",
+                        f"a return of hash_data_frame (`{unparse(rt.stmt.value)[:60]}`) uses {p}.columns at most to walk the columns: the names themselves are not "
+                        f"part of the key, so frames that differ only in column names share a key", rt.stmt)
         state = sorted(r for r in roots if r.startswith("g:_") or (r.startswith("g:") and r[2:] in hd.module.consts))
         if state:
             res.fail_at("C25-S1", hd, f"hash-reads-module-state:{state[0]}",
